@@ -222,8 +222,13 @@ def evaluate__mod_operator(self: XPathToken, context: ta.ContextType = None) \
 
     try:
         if isinstance(op1, int) and isinstance(op2, int):
-            return op1 % op2 if op1 * op2 >= 0 else -(abs(op1) % op2)
-        return op1 % op2  # type: ignore[operator]
+            result = abs(op1) % abs(op2)
+            return result if op1 >= 0 else -result
+        result = op1 % op2  # type: ignore[operator]
+        if isinstance(result, float) and math.isfinite(result):
+            # Python's float modulo takes the sign of the divisor, fn:mod the sign of the dividend
+            return type(result)(math.fmod(op1, op2))
+        return result
     except TypeError as err:
         raise self.error('FORG0006', err) from None
     except (ZeroDivisionError, decimal.InvalidOperation):
